@@ -324,6 +324,16 @@ func c01SkeletonTokens(skel int) []*parsers.ExpressionToken {
 		types = []int{V, LS, V, RS, op("o1"), V}
 	case 9:
 		types = []int{V, op("o1"), V, LB, V, op("o2"), V, CM, V, RB}
+	case 10:
+		o0 := []int{parsers.Not, parsers.Minus, parsers.Plus}[vChoice("o0", 3)]
+		types = []int{o0, V, LS, V, RS, op("o1"), V}
+	case 11:
+		types = []int{V, LB, V, RB, LS, V, RS}
+	case 12:
+		types = []int{LB, V, op("o1"), V, RB, LS, V, RS}
+	case 13:
+		o0 := []int{parsers.Not, parsers.Minus, parsers.Plus}[vChoice("o0", 3)]
+		types = []int{V, op("o1"), o0, V, LB, V, RB, LS, V, RS}
 	}
 	toks := make([]*parsers.ExpressionToken, len(types))
 	for i, t := range types {
